@@ -235,7 +235,7 @@ def run(rep: Report, rng, tier: str, known: dict, search: bool = False) -> None:
 def evidence(rep: Report) -> None:
     write_evidence(
         rep,
-        rule="cases = pairs of expressions (a, b); per pair the six operators against the constructors (==, identical repr, identical type) and the model, a ** k for 21 exponents (ints and integral floats >= 1 up to 2^40, zero, negative, non-integral, nan, inf, bool), and 16 foreign operands (numbers, containers, None, Fraction, Decimal, an object with catch-all reflected operators) on either side of each binary operator; non-trivial = at least 3 nodes in a and b together; distinct by (a, b)",
+        rule="cases = pairs of expressions (a, b); per pair the six operators against the constructors (==, identical repr, identical type) and the model, a ** k for 21 exponents (ints and integral floats >= 1 up to 2^40, zero, negative, non-integral, nan, inf, bool), and 16 foreign operands (numbers, containers, None, Fraction, Decimal, an object with catch-all reflected operators) on either side of each binary operator; non-trivial = at least 3 nodes in a and b together; distinct by (a, b); plus augmented assignment, operator chains, and every operator against its constructor on operands nested 300 and 420 deep under the default recursion limit",
         trusted=common.TRUSTED,
         assumptions=[],
     )
